@@ -25,7 +25,7 @@
 (***************************************************************************)
 EXTENDS Naturals, Sequences, FiniteSets, TLC, Json, SequencesExt, FiniteSetsExt
 
-CONSTANTS MaxExtra, Ids, Times, Vals
+CONSTANTS MaxExtra, Ids, Times, Vals, Unbalanced
 VARIABLES extra, phase
 vars == <<extra, phase>>
 Checked == phase = "checked"
@@ -34,7 +34,12 @@ Kinds == {"m1", "m2", "mx", "mv", "d", "db", "c"}
 Rows == [id : Ids, kind : Kinds \ {"c"}, t : Times \cup {0}, v : Vals]
 \* base rows: individuals in DESCENDING order so that the extras decide the first-occurrence order
 IdSeq == SetToSortSeq(Ids, LAMBDA a, b : a > b)
-Base == FoldLeft(LAMBDA acc, i : acc \o <<[id |-> i, kind |-> "m1", t |-> 1, v |-> 1], [id |-> i, kind |-> "c", t |-> 0, v |-> i]>>,
+\* Unbalanced designs: the individual with the smallest ID has NO base measurement of the first output (its base measurement is
+\* of the second one), so that -- unless an extra row supplies one -- its likelihood has an output without observations in
+\* front of one with observations
+CT_Min == CHOOSE m \in Ids : \A j \in Ids : m <= j
+BaseKind(i) == IF Unbalanced /\ Cardinality(Ids) > 1 /\ i = CT_Min THEN "m2" ELSE "m1"
+Base == FoldLeft(LAMBDA acc, i : acc \o <<[id |-> i, kind |-> BaseKind(i), t |-> 1, v |-> 1], [id |-> i, kind |-> "c", t |-> 0, v |-> i]>>,
                  <<>>, IdSeq) \o <<[id |-> IdSeq[1], kind |-> "m2", t |-> 2, v |-> 2]>>   \* every mapped observable occurs
 Data == extra \o Base
 
